@@ -784,6 +784,11 @@ func Run(r *ev.Run) {
 		guard(r, fmt.Sprintf("subst:%d:%02x", pos, v), fmt.Sprintf("%x", in), func() {
 			specs, err := ech.ParseConfigList(in)
 			oc := "rejected"
+			if err != nil && len(specs) != 0 {
+				// "rejects": a refused list yields NOTHING - a caller that looks at the length of what it got, or drops the error,
+				// must not find configs of a list that was refused (the ones in front of the damaged one)
+				r.Violation("parse-returns-configs-with-an-error", fmt.Sprintf("ParseConfigList refused the list (%v) and returned %d config(s) next to the error", err, len(specs)), fmt.Sprintf("%x", in))
+			}
 			if err == nil {
 				oc = "accepted"
 				// whatever is returned must lie within declared lengths: names/keys no longer than the input
